@@ -53,12 +53,13 @@ def refused_calls_leave_no_trace(run, cfgs, nprng):
                 outs_u, outs_c = [used.compute_chunk(x[:k1])], [clean.compute_chunk(x[:k1])]
                 offered = nprng.randn(2 * L + 1).astype(other_dt)
                 offered.flags.writeable = False
-                for call in ("full", "fbf"):
+                for call in ("full", "fbf", "full_empty", "fbf_empty"):
+                    sig_ = offered if not call.endswith("_empty") else offered[:0]  # (an empty signal is refused like any other)
                     try:
-                        if call == "full":
-                            used.compute_full(offered)
+                        if call.startswith("full"):
+                            used.compute_full(sig_)
                         else:
-                            frame_by_frame_calculation(used, offered, 3)
+                            frame_by_frame_calculation(used, sig_, 3)
                         run.violation({"kind": kind + "_call_not_refused_mid_utterance", "cfg": cfg, "call": call, "fed": k1})
                     except ValueError:
                         pass
